@@ -8,7 +8,9 @@ from lunaverif.bfm import g9_hostgen as G
 
 PROPERTY = "C14"
 ASSUMPTIONS = [
-    "full-speed device on a bare UTMI bus; stream endpoints 1 (IN), 2 (OUT), 4 (IN and OUT), max packet 8",
+    "full-speed device on a bare UTMI bus; stream endpoints 1 (IN), 2 (OUT), 4 (IN and OUT), max packet 8; sub "
+    "'high-numbers': stream endpoints 1 and 9 (IN and OUT each) -- USB allows endpoint numbers 1..15 and LUNA's "
+    "tokenizer/endpoint compare are 4 bits wide, so a device with an endpoint numbered >= 8 is a legal configuration",
     "host packets well formed with good CRCs (a corrupted OUT data packet trips C06's deserializer defect and is "
     "C13's subject); a lost device ACK is modelled by the host re-using the previous OUT toggle, a lost host ACK by "
     "not acknowledging an IN data packet",
@@ -18,21 +20,32 @@ ASSUMPTIONS = [
     "the handshake actually sent",
 ]
 
-XIN = [dict(k="xin", ep=ep, n=n, ack=1) for ep in (1, 4) for n in (1, 4, 8)]
-BULK = G.foreign_table() + XIN * 2 + [dict(k="out", ep=ep, n=8, flip=0) for ep in (2, 4)] * 2
+def tables(in_eps, out_eps):
+    xin = [dict(k="xin", ep=ep, n=n, ack=1) for ep in in_eps for n in (1, 4, 8)]
+    bulk = (G.foreign_table(in_eps=in_eps, out_eps=out_eps) + xin * 2
+            + [dict(k="out", ep=ep, n=8, flip=0) for ep in out_eps] * 2)
+    acked = [f for f in bulk if f["k"] == "in"] + [dict(k="probe", addr="dev", ack=1)]
+    return bulk, acked
+
+
+BULK, ACKED = tables((1, 4), (2, 4))
 EP_ADDRS = [0x81, 0x02, 0x84, 0x04, 0x81, 0x02, 0x84, 0x04, 0x83, 0x01, 0x82, 0x00, 0x80, 0x03, 0x05, 0x8F, 0x0E]
-ACKED = [f for f in BULK if f["k"] == "in"] + [dict(k="probe", addr="dev", ack=1)]
+# "wide" rig (stream endpoints 1 and 9, IN and OUT each): the existing addresses three times, then neighbours that
+# differ from an existing number in one bit of the 4-bit endpoint number, the signal endpoint, endpoint 0, 15
+WIDE_BULK, WIDE_ACKED = tables((1, 9), (1, 9))
+WIDE_ADDRS = [0x81, 0x01, 0x89, 0x09] * 3 + [0x83, 0x03, 0x8B, 0x0B, 0x88, 0x08, 0x80, 0x00, 0x8D, 0x05, 0x8F, 0x0F]
 
 
-def clear_items():
-    halt = st.sampled_from(EP_ADDRS).map(lambda e: [0x02, 1, 0, e, 0])
-    other = st.sampled_from([[0x02, 1, 1, 0x81, 0], [0x02, 1, 2, 0x02, 0], [0x00, 1, 0, 0x81, 0], [0x01, 1, 0, 0x04, 0],
-                             [0x00, 1, 1, 0, 0], [0x02, 1, 1, 0x84, 0]])
+def clear_items(addrs=EP_ADDRS, bulk=BULK, acked=ACKED):
+    halt = st.sampled_from(addrs).map(lambda e: [0x02, 1, 0, e, 0])
+    a, b = addrs[0], addrs[1]
+    other = st.sampled_from([[0x02, 1, 1, a, 0], [0x02, 1, 2, b, 0], [0x00, 1, 0, a, 0], [0x01, 1, 0, addrs[3], 0],
+                             [0x00, 1, 1, 0, 0], [0x02, 1, 1, addrs[2], 0]])
     return st.fixed_dictionaries(dict(
         k=st.just("ctrl"), req=st.one_of(halt, halt, halt, other),
         cut=weighted([(0, 7), (1, 1), (2, 1)]),
         noack=weighted([(0, 4), (1, 1)]),
-        mid=long_lists(st.tuples(st.integers(0, 2), st.sampled_from(BULK + ACKED)).map(list), max_size=3, average=0.8),
+        mid=long_lists(st.tuples(st.integers(0, 2), st.sampled_from(bulk + acked)).map(list), max_size=3, average=0.8),
     ))
 
 
@@ -40,6 +53,10 @@ class Toggles(Sub):
     name = "toggles"
     budget = {"quick": 1000, "thorough": 20000}
     shrink_budget = 250
+    kind = "full"
+    bulk, acked, addrs = BULK, ACKED, EP_ADDRS
+    # one successful transaction per stream endpoint (+ the signal endpoint): prologue bit -> item; closing items
+    stream_eps = ((1, "in"), (2, "out"), (4, "in"), (4, "out"))
     rule = ("a prologue moving a generated subset of toggles to DATA1, then histories of 1..24 items: IN transactions (ACKed or not) on stream endpoints 1/4 and the signal endpoint, "
             "OUT transactions (in sequence, repeated toggle, zero length, overflow-prone) on 2/4, PINGs, stream feeds, "
             "and CLEAR_FEATURE requests -- ENDPOINT_HALT naming any endpoint address 0x00-0x8F (existing, other "
@@ -51,32 +68,34 @@ class Toggles(Sub):
             "endpoint's toggle is DATA1 too")
 
     def setup(self):
-        self.rig = H.rig("full")
+        self.rig = H.rig(self.kind)
 
     def strategy(self):
-        top = st.one_of(st.sampled_from(BULK), st.sampled_from(BULK), st.sampled_from(BULK), clear_items())
+        bulk = st.sampled_from(self.bulk)
+        top = st.one_of(bulk, bulk, bulk, clear_items(self.addrs, self.bulk, self.acked))
         return st.fixed_dictionaries(dict(pre=st.integers(0, 31), items=long_lists(top, min_size=1, max_size=24, average=12),
                                           **G.env_fields()))
 
     def build(self, case):
         b = G.Builder(self.rig.descriptors)
         # prologue: move a generated subset of toggles to DATA1 with one successful transaction each
-        for bit, it in enumerate((dict(k="xin", ep=1, n=2, ack=1), dict(k="out", ep=2, n=2, flip=0),
-                                  dict(k="xin", ep=4, n=2, ack=1), dict(k="out", ep=4, n=2, flip=0),
-                                  dict(k="in", ep=3, ack=1))):
+        pre = [dict(k="xin", ep=ep, n=2, ack=1) if d == "in" else dict(k="out", ep=ep, n=2, flip=0)
+               for ep, d in self.stream_eps] + [dict(k="in", ep=3, ack=1)]
+        for bit, it in enumerate(pre):
             if case["pre"] >> bit & 1:
                 b.item(it)
         for it in case["items"]:
             b.item(it)
-        for it in (dict(k="feed", ep=1, n=2, last=1), dict(k="feed", ep=4, n=2, last=1), dict(k="idle", n=12),
-                   dict(k="in", ep=1, ack=1), dict(k="in", ep=4, ack=1), dict(k="out", ep=2, n=1, flip=0),
-                   dict(k="out", ep=4, n=1, flip=0)):
+        ins = [ep for ep, d in self.stream_eps if d == "in"]
+        outs = [ep for ep, d in self.stream_eps if d == "out"]
+        for it in ([dict(k="feed", ep=ep, n=2, last=1) for ep in ins] + [dict(k="idle", n=12)]
+                   + [dict(k="in", ep=ep, ack=1) for ep in ins] + [dict(k="out", ep=ep, n=1, flip=0) for ep in outs]):
             b.item(it)
         return b
 
     def run(self, case):
         b = self.build(case)
-        run = H.execute("full", b.prog, **G.env_of(case))
+        run = H.execute(self.kind, b.prog, **G.env_of(case))
         if run.violation is not None:
             v = run.violation
             return fail(v["msg"], signature=self.diagnose(run, b, G.response_signature(v), v.get("txn")))
@@ -128,4 +147,15 @@ class Toggles(Sub):
         return sig
 
 
-SUBS = [Toggles()]
+class HighNumbers(Toggles):
+    name = "high-numbers"
+    budget = {"quick": 300, "thorough": 8000}
+    kind = "wide"
+    bulk, acked, addrs = WIDE_BULK, WIDE_ACKED, WIDE_ADDRS
+    stream_eps = ((1, "in"), (1, "out"), (9, "in"), (9, "out"))
+    rule = ("the same histories and the same toggle model as 'toggles' on a device whose stream endpoints are 1 and 9 "
+            "(IN and OUT each; numbers that differ only in bit 3): clear-halts name 0x81/0x01/0x89/0x09 (3 in 5), one-bit "
+            "neighbours (3, 11, 8), 0, 5, 13, 15; non-trivial as in 'toggles'")
+
+
+SUBS = [Toggles(), HighNumbers()]
